@@ -176,7 +176,7 @@ pub fn s_far_beyond() -> Space {
 
 pub fn c05(ctx: &Ctx) -> Collector {
     let col = Collector::new("C05", "exploration");
-    col.set_rule("cases = S_len with automatic version (thorough: every length 0..=7200 x 3 modes x 4 levels = 86 412 points; quick: lengths 0..=128, the -1/0/+1 neighbourhood of all 480 capacity thresholds and every 16th length) + forced-version space (quick: threshold neighbourhoods; thorough: the complete (length x forced version) triangle) + lengths far beyond capacity; oracle: R's capacity inequality 4 + count bits + payload bits <= 8 x data codewords gives the smallest sufficient version / the expected error; a returned symbol must use that version (or the forced one) and its data must fit; panics are violations; non-trivial = a symbol was returned; distinct = distinct symbol matrices");
+    col.set_rule("cases = S_len with automatic version (thorough: every length 0..=7200 x 3 modes x 4 levels = 86 412 points; quick: lengths 0..=128, the -1/0/+1 neighbourhood of all 480 capacity thresholds and every 7th length) + forced-version space (quick: threshold neighbourhoods; thorough: the complete (length x forced version) triangle) + lengths far beyond capacity; oracle: R's capacity inequality 4 + count bits + payload bits <= 8 x data codewords gives the smallest sufficient version / the expected error; a returned symbol must use that version (or the forced one) and its data must fit; panics are violations; non-trivial = a symbol was returned; distinct = distinct symbol matrices");
     col.assume(A_REF);
     col.assume("an over-capacity input with a forced version may return either documented error (the statement allows both)");
     let p = ["C05"];
